@@ -17,6 +17,7 @@ import Nebula.Lemmas.WritebatchProgress
 import Nebula.Lemmas.WritebatchDisable
 import Nebula.Lemmas.Sendmmsg
 import Nebula.Lemmas.WritebatchCover
+import Nebula.Lemmas.WritebatchBridge
 
 namespace Nebula.Props.C26
 open Nebula.Writebatch Nebula.Lemmas.Writebatch Nebula.Lemmas.Sendmmsg List
@@ -170,6 +171,18 @@ example :
     let r := writeBatch (δ := Nat) { n := 0, maxSeg := 2, routable := fun _ => true } (scriptKern []) [⟨5, 0⟩] true []
     r.written = 0 ∧ r.err = false ∧ r.calls.length = 0 := by
   decide +kernel
+
+/-- The run-time oracle is a proved consequence of the model: for every batch, every kernel under the
+sendmmsg contract, every scratch size, GSO on or off and every stale slot state, the specification's checker
+`Spec.Writebatch.check` (the function the correspondence run applies to the implementation's answers: sent
+within offered, run shape incl. control data, at most once, exact count, per-destination order, no-progress
+rule) accepts the model's trace as the harness would observe it (`toSTrace`: indices of zero-length packets
+hidden, control data as left in the slots, destinations numbered by any `dnum` consistent with routability). -/
+theorem model_satisfies_oracle (c : Cfg δ) (pk : List (Pkt δ)) (dnum : δ → Nat) (rnum : Nat → Bool)
+    (kern : Nat → Nat → Outcome) (hk : KernOK kern) (gso : Bool) (ctl : Ctl)
+    (hc : ctl.length = c.n) (hr : ∀ p ∈ pk, rnum (dnum p.dst) = c.routable p.dst) :
+    Spec.Writebatch.check (toSInput c pk dnum rnum) (toSTrace pk dnum (writeBatch c kern pk gso ctl)) = none :=
+  model_satisfies_oracle_lemma c pk dnum rnum kern hk gso ctl hc hr
 
 /-- every scripted kernel (any list of outcomes, any `sent` values) satisfies the contract — the
 hypothesis `KernOK` of the theorems above is satisfiable, by every script. -/
